@@ -168,8 +168,18 @@ def _op_bvp(ctx, op, state):
             ctx.log.add(ctx.step, "bvp", "skip-not-increasing")
             return
     fx, coeffs = OP.make_callables(P)
+    if o.get("reentrant"):
+        # a right-hand side that itself uses the library while the outer solve is in progress (nested solve of a
+        # small unrelated problem through its own transform, plus a transform evaluation): re-entrancy must be harmless
+        fx0 = fx
+
+        def fx(xx, fx0=fx0):
+            _nested_library_use(state)
+            return fx0(xx)
+
+        ctx.probes.hit("re-entrant-callback")
     bd = _bd_cond(P, twin)
-    if not o.get("own_inputs"):
+    if not o.get("own_inputs") and not o.get("reentrant"):
         # the caller's own input objects (mesh array, coefficient list, boundary lists) are created once per run and
         # handed to every solve: a solver that edits them changes what the *next* solve of the same problem sees
         sh = state.setdefault("shared", {})
@@ -279,8 +289,39 @@ def _op_bvp(ctx, op, state):
         ctx.probes.hit("guess-drawn-from-seam")
         ctx.states.add(f"{P['order']}:{_tname(tspec)}:{beh}")
     ctx.log.add(ctx.step, "bvp", mode_key, beh, bseed, h)
+    _recheck_held(ctx, state, sig)
+    if o.get("share_tf") or tf is None:
+        # (solutions through short-lived transforms are released on purpose, see below; the others are kept and re-checked)
+        state.setdefault("held_sols", []).append((sig, sol, xc.copy(), yc.copy()))
+        del state["held_sols"][:-2]
     if tf is not None and not o.get("share_tf"):
         state["held"] = (tf, sol)  # released by the simulator right before the next short-lived transform is built
+
+
+def _nested_library_use(state):
+    """Called from inside a user callback: a complete small solve of another problem + transform evaluations."""
+    from grid.ode import solve_ode_bvp
+    from grid.rtransform import BeckeRTransform, ExpRTransform
+
+    state["nested"] = state.get("nested", 0) + 1
+    if state["nested"] % 7 != 1:  # not on every invocation: keeps the cost bounded
+        return
+    xx = np.linspace(-0.5, 0.5, 6)
+    sol = solve_ode_bvp(xx, lambda t: 0.0 * t + 1.0, [1.0, 0.0, 1.0], [[0, 0, 0.0], [1, 0, 0.0]], transform=BeckeRTransform(0.1, 1.3), tol=1e-3,
+                        initial_guess_y=np.zeros((2, 6)), no_derivatives=False)
+    sol(np.array([0.0, 0.2]))
+    ExpRTransform(0.1, 5.0).transform(np.arange(4.0))
+
+
+def _recheck_held(ctx, state, sig):
+    """Solution callables handed out by earlier solves of this run must still give what they gave."""
+    for name, sol, xs, v0 in state.get("held_sols", []):
+        oc = _outcome(lambda: np.asarray(sol(xs.copy()), dtype=float))
+        if oc[0] == "raise":
+            ctx.violate("held-solution-raise", "bvp", name, f"a solution callable returned earlier raises {oc[1]!r} after later solves")
+        elif oc[1].shape != v0.shape or not np.allclose(oc[1], v0, rtol=0, atol=1e-12 * max(1.0, float(np.max(np.abs(v0)))), equal_nan=True):
+            ctx.violate("held-solution-changed", "bvp", name, "a solution callable returned by an earlier solve gives different values after later solves / evaluations")
+        ctx.probes.hit("held-solution-re-evaluated")
 
 
 def _op_ivp(ctx, op, state):
@@ -397,7 +438,8 @@ class OdeSeamEngine:
             u = rng.random()
             if u < 0.58:
                 beh = rng.choice(BEHAVIOURS)
-                o = {"derivs": rng.random() < 0.8, "share_tf": rng.random() < 0.3, "own_inputs": rng.random() < 0.25, "ti": rng.randrange(3)}
+                o = {"derivs": rng.random() < 0.8, "share_tf": rng.random() < 0.3, "own_inputs": rng.random() < 0.25, "ti": rng.randrange(3),
+                     "reentrant": rng.random() < 0.12}
                 if rng.random() < 0.08:
                     o["guess"] = "zeros"
                 ops.append(["bvp", rng.choice(modes), beh, rng.randrange(1000), o])
